@@ -56,6 +56,7 @@ type RunSpec struct {
 	MaxSteps    int               `json:"max_steps"`
 	EnvArrays   bool              `json:"env_arrays,omitempty"` // supply a recording Environ with indexed/assoc values
 	Interactive bool              `json:"interactive,omitempty"`
+	Lang        string            `json:"lang,omitempty"` // parser variant: "" (bash), "zsh", "mksh"
 	KillTimeout int               `json:"kill_timeout_ms,omitempty"`
 }
 
@@ -104,13 +105,25 @@ type RunResult struct {
 	Panic                           string
 	HarnessErr                      string
 	Digest                          string
+	ParseSkip                       string // the program does not parse under the chosen non-default variant
 }
 
 func (r *RunResult) last() *ProgResult { return &r.Progs[len(r.Progs)-1] }
 
 // parseProg parses src as bash; generated programs are always valid.
-func parseProg(src, name string) (*syntax.File, error) {
-	return syntax.NewParser(syntax.Variant(syntax.LangBash)).Parse(strings.NewReader(src), name)
+func parseProg(src, name string) (*syntax.File, error) { return parseProgLang(src, name, "") }
+
+// parseProgLang parses with the given variant ("" = bash). Comments are kept:
+// they are part of the tree that Run must not modify.
+func parseProgLang(src, name, lang string) (*syntax.File, error) {
+	v := syntax.LangBash
+	switch lang {
+	case "zsh":
+		v = syntax.LangZsh
+	case "mksh":
+		v = syntax.LangMirBSDKorn
+	}
+	return syntax.NewParser(syntax.Variant(v), syntax.KeepComments(true)).Parse(strings.NewReader(src), name)
 }
 
 type chooser struct {
@@ -359,8 +372,12 @@ func executeInBubble(spec *RunSpec, res *RunResult) {
 
 	files := make([]*syntax.File, len(spec.Programs))
 	for i, src := range spec.Programs {
-		f, err := parseProg(src, "")
+		f, err := parseProgLang(src, "", spec.Lang)
 		if err != nil {
+			if spec.Lang != "" {
+				res.ParseSkip = fmt.Sprintf("does not parse as %s: %v", spec.Lang, err)
+				return
+			}
 			res.HarnessErr = fmt.Sprintf("generated program %d does not parse: %v\n%s", i, err, src)
 			return
 		}
@@ -368,7 +385,7 @@ func executeInBubble(spec *RunSpec, res *RunResult) {
 	}
 	var subFile *syntax.File
 	if spec.Sub != "" {
-		f, err := parseProg(spec.Sub, "")
+		f, err := parseProgLang(spec.Sub, "", spec.Lang)
 		if err != nil {
 			res.HarnessErr = fmt.Sprintf("generated sub program does not parse: %v", err)
 			return
@@ -721,7 +738,7 @@ func (r *RunResult) digest() string {
 		parts = append(parts, []byte(s.ID), []byte(s.Point))
 	}
 	for _, p := range r.Progs {
-		parts = append(parts, []byte(canonOutput(p.Stdout)), []byte(canonOutput(p.Stderr)), []byte(p.Err))
+		parts = append(parts, []byte(canonOutput(p.Stdout)), []byte(canonOutput(p.Stderr)), []byte(fifoNameRE.ReplaceAllString(p.Err, "sh-interp-FIFO")))
 	}
 	keys := make([]string, 0, len(r.Vars))
 	for k := range r.Vars {
@@ -729,7 +746,7 @@ func (r *RunResult) digest() string {
 	}
 	sort.Strings(keys)
 	for _, k := range keys {
-		parts = append(parts, []byte(k), []byte(r.Vars[k]))
+		parts = append(parts, []byte(k), []byte(fifoNameRE.ReplaceAllString(r.Vars[k], "sh-interp-FIFO")))
 	}
 	parts = append(parts, []byte(fmt.Sprint(r.Steps, r.SimTime, r.Hang, r.Cancelled, r.CancelAtStep, r.StepsAfterCancel)))
 	return kit.Digest(parts...)
